@@ -35,10 +35,13 @@ structure Variant where
   f11 : Bool
   /-- F2: the error path of the index builder does not free the caller's handle (simulationarchive.c:317-332) -/
   f2 : Bool
+  /-- F19: the index builder reads `t`, version, auto_* only when the size in the file is the size of
+      the variable; a `t` field of another size makes the blob corrupt (simulationarchive.c:193-201,244) -/
+  f19 : Bool
 deriving DecidableEq, Repr
 
-def Variant.current : Variant := ⟨false, false, false⟩
-def Variant.fixed : Variant := ⟨true, true, true⟩
+def Variant.current : Variant := ⟨false, false, false, false⟩
+def Variant.fixed : Variant := ⟨true, true, true, true⟩
 
 /-! ### constants of the format -/
 def END : Nat := 9999
@@ -301,19 +304,20 @@ def AUTO_STEP : Nat := 135
 /-- first pass (lines 135-205): value of `sa->version` when the loop ends; `none` = a
     `fread(&member, field.size, 1, f)` with `field.size` larger than the member (lines 193-201:
     the size in the file is trusted — F19): memory next to the member is overwritten -/
-def scanVersion : Nat → Bytes → Nat → Option Nat
+def scanVersion (v : Variant) : Nat → Bytes → Nat → Option Nat
   | 0, _, ver => some ver
   | fuel + 1, r, ver =>
     match readHdr r with
     | none => some ver
     | some (ty, sz, p) =>
-      if ty = HEADER then scanVersion fuel (p.drop 48) ver
+      if ty = HEADER then scanVersion v fuel (p.drop 48) ver
       else if ty = END then some ver
       else if ty = SAVERSION then
-        if sz > 4 then none else scanVersion fuel (p.drop sz) (de (p.take sz))
+        if v.f19 then scanVersion v fuel (p.drop sz) (if sz = 4 then de (p.take sz) else ver)
+        else if sz > 4 then none else scanVersion v fuel (p.drop sz) (de (p.take sz))
       else if ty = T_ID ∨ ty = AUTO_INTERVAL ∨ ty = AUTO_WALLTIME ∨ ty = AUTO_STEP then
-        if sz > 8 then none else scanVersion fuel (p.drop sz) ver
-      else scanVersion fuel (p.drop sz) ver
+        if !v.f19 && sz > 8 then none else scanVersion v fuel (p.drop sz) ver
+      else scanVersion v fuel (p.drop sz) ver
 
 inductive BlobWalk where
   /-- END reached: time field seen (if any), absolute position and stream after the END header -/
@@ -324,19 +328,20 @@ inductive BlobWalk where
 deriving Repr
 
 /-- inner do-while (lines 234-262) -/
-def walkBlob : Nat → Nat → Bytes → Option Bytes → BlobWalk
+def walkBlob (v : Variant) : Nat → Nat → Bytes → Option Bytes → BlobWalk
   | 0, _, _, _ => .readError
   | fuel + 1, pos, r, t =>
     match readHdr r with
     | none => .readError
     | some (ty, sz, p) =>
-      if ty = HEADER then walkBlob fuel (pos + 64) (p.drop 48) t
+      if ty = HEADER then walkBlob v fuel (pos + 64) (p.drop 48) t
       else if ty = T_ID then
-        if sz > 8 then .overflow
+        if v.f19 && sz ≠ 8 then .readError
+        else if sz > 8 then .overflow
         else if sz = 0 ∨ shorter p sz then .readError
-        else walkBlob fuel (pos + 16 + sz) (p.drop sz) (some (p.take sz))
+        else walkBlob v fuel (pos + 16 + sz) (p.drop sz) (some (p.take sz))
       else if ty = END then .ok t (pos + 16) p
-      else walkBlob fuel (pos + 16 + sz) (p.drop sz) t
+      else walkBlob v fuel (pos + 16 + sz) (p.drop sz) t
 
 structure Entry where
   off : Nat
@@ -354,10 +359,10 @@ structure IndexOut where
 deriving Repr
 
 /-- outer for-loop (lines 230-316); `i` = blob number, `pos`/`r` = stream position -/
-def indexLoop : Nat → Nat → Nat → Bytes → IndexOut
+def indexLoop (v : Variant) : Nat → Nat → Nat → Bytes → IndexOut
   | 0, _, _, _ => ⟨[], true, false, false⟩
   | fuel + 1, i, pos, r =>
-    match walkBlob (r.length + 1) pos r none with
+    match walkBlob v (r.length + 1) pos r none with
     | .readError => ⟨[], true, false, false⟩
     | .overflow => ⟨[], true, false, true⟩
     | .ok t pos1 r1 =>
@@ -369,7 +374,7 @@ def indexLoop : Nat → Nat → Nat → Bytes → IndexOut
       if i > 0 ∧ sgn32 offPrev + 12 ≠ (pos2 : Int) - (pos : Int) then ⟨[], true, short, false⟩
       else if offNext = 0 ∨ short then ⟨[⟨pos, t⟩], false, short, false⟩
       else
-        let o := indexLoop fuel (i + 1) pos2 (r1.drop 12)
+        let o := indexLoop v fuel (i + 1) pos2 (r1.drop 12)
         ⟨⟨pos, t⟩ :: o.entries, o.readError, o.shortTrailer, o.undefinedB⟩
 
 inductive OpenResult where
@@ -394,12 +399,12 @@ def fixTimes (v : Variant) (es : List Entry) : List Entry :=
 
 /-- `reb_read_simulationarchive_from_stream_with_messages` (sa_index = NULL) -/
 def openArchive (v : Variant) (file : Bytes) : OpenResult :=
-  match scanVersion (file.length + 1) file 0 with
+  match scanVersion v (file.length + 1) file 0 with
   | none => .undefined
   | some ver =>
     if ver < 2 then .errorOld
     else
-      let o := indexLoop (file.length + 1) 0 0 file
+      let o := indexLoop v (file.length + 1) 0 0 file
       if o.undefinedB then .undefined
       else if o.readError then
         if o.entries.length > 0 then .ok (fixTimes v o.entries) true
